@@ -72,10 +72,11 @@ def run(ctx):
         begun = [e for e in evs if e["ev"] == "begin"]
         last = begun[-1] if begun else {}
         finished = {e["sid"] for e in done}
-        if last and last.get("sid") not in finished and "panic:" in txt:
+        if last and last.get("sid") not in finished and ("panic:" in txt or "fatal error:" in txt or "stack overflow" in txt or "\ngoroutine " in txt):
             path = vlib.save_replay(ctx.pid, "crash-s%d" % last["sid"], {"session": last, "output": txt[-3000:]})
+            first = [l for l in txt.splitlines() if "panic:" in l or "fatal error:" in l][:1]
             res.violations.append(({"monitor": "crash", "why": "process died"}, path,
-                                   "the process crashed while paging layout %s" % last.get("pages")))
+                                   "the process crashed while paging layout %s (%s)" % (last.get("pages"), first[0] if first else "")))
         else:
-            raise vlib.Inconclusive("paging harness failed:\n" + txt[-2000:])
+            raise vlib.Inconclusive("paging harness failed (rc=%s, %d sessions begun, last %s, finished %s):\n%s" % (rc, len(begun), last.get("sid"), last.get("sid") in finished, txt[-1500:]))
     return res
